@@ -122,6 +122,6 @@ PROPS = {
     "C17": dict(
         level="proof",
         specs=["specs.c17_purity"],
-        bounded=["bounded.c17_purity", "bounded.frames_selftest"],
+        bounded=["bounded.c17_purity", "bounded.c17_loading", "bounded.frames_selftest"],
     ),
 }
